@@ -92,6 +92,29 @@ def sequence(ctx, item):
                                   evaluated_before=pts[:pts.index(model)],
                                   oracle='C(b,k) * integral against the Lambda measure; same process evaluated the listed models first')
                     return
+        # the SAME model object after its public parameters were re-assigned (a parameter sweep that keeps the object): its rates
+        # are those of the new parameters
+        others = [p for p in pts if p[0] == model[0] and p != model and model[0] in ('beta', 'dirac') and not (p[0] == 'beta' and p[1] == 1.0)]
+        if others:
+            new = rng.choice(others)
+            if model[0] == 'beta':
+                m.alpha, m.scale_time = new[1], new[2]
+            else:
+                m.psi, m.c, m.scale_time = new[1], new[2], new[3]
+            for b in range(2, 7):
+                for k in range(2, b + 1):
+                    real = float(m._get_rate(b=b, k=k))
+                    want = math.comb(b, k) * spec.lam(new, b, k)
+                    if not C.close(want, real, 1e-8, 1e-300):
+                        ctx.violation(f'rate-after-reassignment:{model[0]}', model=new, constructed_as=model, b=b, k=k, expected=want,
+                                      observed=real, oracle='C(b,k) * integral against the Lambda measure of the NEW parameters')
+                        return
+            for N in (0.5, 3.0):
+                if not C.close(float(m._get_timescale(N)), conv.timescale_oracle(new, N), 1e-10):
+                    ctx.violation(f'timescale-after-reassignment:{model[0]}', model=new, constructed_as=model, N=N,
+                                  expected=conv.timescale_oracle(new, N), observed=float(m._get_timescale(N)))
+                    return
+            ctx.count('sequence:parameters-reassigned')
 
 
 def one(ctx, model):
@@ -242,6 +265,30 @@ def run(ctx):
 
 
 def replay(ctx, payload):
+    if 'after-reassignment' in str(payload.get('signature', '')):
+        pg = C.import_phasegen()
+        old, new = tuple(payload['constructed_as']), tuple(payload['model'])
+        ctx.case(dict(model=new, constructed_as=old), 'replay')
+        m = conv.make_model(pg, old)
+        for b in range(2, 7):
+            for k in range(2, b + 1):
+                m._get_rate(b=b, k=k)
+        if new[0] == 'beta':
+            m.alpha, m.scale_time = new[1], new[2]
+        else:
+            m.psi, m.c, m.scale_time = new[1], new[2], new[3]
+        for b in range(2, 7):
+            for k in range(2, b + 1):
+                real, want = float(m._get_rate(b=b, k=k)), math.comb(b, k) * spec.lam(new, b, k)
+                if not C.close(want, real, 1e-8, 1e-300):
+                    ctx.violation(payload['signature'], model=new, constructed_as=old, b=b, k=k, expected=want, observed=real)
+                    return
+        for N in (0.5, 3.0):
+            if not C.close(float(m._get_timescale(N)), conv.timescale_oracle(new, N), 1e-10):
+                ctx.violation(payload['signature'], model=new, constructed_as=old, N=N, expected=conv.timescale_oracle(new, N),
+                              observed=float(m._get_timescale(N)))
+                return
+        return
     if str(payload.get('signature', '')).startswith('rate-after-other-models'):
         pg = C.import_phasegen()
         model = tuple(payload['model'])
